@@ -744,6 +744,7 @@ def dummy_wrapper_for_exec(query_context, user_namespace, LIKE, UNNEST, ANY_VALU
     median = MEDIAN
     Median = MEDIAN
     array_agg = ARRAY_AGG
+    Array_agg = ARRAY_AGG
     max = mad_max
     min = mad_min
     sum = mad_sum
